@@ -25,8 +25,8 @@ def build_driver():
 
 class C04(F.PropCheck):
     pid = 'C04'; gen_groups = ['ProtoConsts', 'C04Consts']; prop_file = 'Properties_C04'
-    IN = {'CFG': 0, 'ADV': 1, 'WIFI': 2, 'CONNCB': 3, 'DISCCB': 4, 'RECV': 5, 'SENTMODE': 6, 'SENTRES': 7, 'LOCAL': 8}
-    OUT = {0: 'WIFISTART', 1: 'CONNECT', 2: 'DISCONNECT', 3: 'FRESH', 4: 'WIRE', 5: 'JUNK', 6: 'RESTART', 7: 'STATE', 8: 'FUEL', 9: 'RX', 10: 'DISCD'}
+    IN = {'CFG': 0, 'ADV': 1, 'WIFI': 2, 'CONNCB': 3, 'DISCCB': 4, 'RECV': 5, 'SENTMODE': 6, 'SENTRES': 7, 'LOCAL': 8, 'SERVER': 9}
+    OUT = {0: 'WIFISTART', 1: 'CONNECT', 2: 'DISCONNECT', 3: 'FRESH', 4: 'WIRE', 5: 'JUNK', 6: 'RESTART', 7: 'STATE', 8: 'FUEL', 9: 'RX', 10: 'DISCD', 11: 'SRVRX'}
     quick_cases = 2000; thorough_cases = 50000
     trusted_extra = ['C04 driver harness/drv/c04.c + harness/wrap/c04_wifi_wrap.c: model of the SDK TCP client around the server connection '
                      '(connect_cb only for a pending espconn_connect, disconnect_cb only for a live/closing connection, data only on a live one; '
